@@ -23,6 +23,25 @@ def main():
         e.fit(X, y)
         st = e.get_stats()
         out[name] = {"tree": str(e.get_tree()), "fitness": [[float(v) for v in f] for f in st["fitness"]], "pop0": [str(t) for t in st["population_g"][0]]}
+    # network estimators: optionally AFTER other, differently configured nets with the same wiring were evaluated in this process
+    import os
+    from thefittest.regressors import MLPEARegressor, GeneticProgrammingNeuralNetRegressor
+    rs2 = np.random.RandomState(11)
+    X2 = rs2.uniform(-2, 2, size=(40, 3))
+    y2 = X2[:, 0] * X2[:, 1] - np.cos(X2[:, 2])
+    if os.environ.get("C04_PRELUDE") == "1":
+        MLPEARegressor(n_iter=2, pop_size=6, hidden_layers=(3,), activation="tanh", random_state=9).fit(X2, y2)
+        GeneticProgrammingNeuralNetRegressor(n_iter=3, pop_size=8, optimizer_args={"selections": ("rank", "tournament_3")},
+                                             weights_optimizer_args={"iters": 2, "pop_size": 4}, random_state=99).fit(X2, y2)
+    m = MLPEARegressor(n_iter=3, pop_size=6, hidden_layers=(3,), activation="relu", weights_optimizer_args={"keep_history": True}, random_state=5)
+    m.fit(X2, y2)
+    out["MLPEARegressor"] = {"tree": str([float(w) for w in m.get_net()._weights]), "fitness": [[float(v) for v in f] for f in m.get_stats()["fitness"]],
+                             "pop0": [str(float(v)) for v in m.predict(X2)[:5]]}
+    g = GeneticProgrammingNeuralNetRegressor(n_iter=3, pop_size=8, optimizer_args={"selections": ("rank", "tournament_3"), "keep_history": True},
+                                             weights_optimizer_args={"iters": 2, "pop_size": 4}, random_state=7)
+    g.fit(X2, y2)
+    out["GPNNRegressor"] = {"tree": str(g.get_tree()), "fitness": [[float(v) for v in f] for f in g.get_stats()["fitness"]],
+                            "pop0": [str(float(v)) for v in g.predict(X2)[:5]]}
     print("FINGERPRINT " + json.dumps(out))
 
 
